@@ -473,3 +473,60 @@ def _reaches_exit_or(b, starts, goals, blocked):
             if y not in blocked and y not in seen:
                 st.append(y)
     return False
+
+
+# ------------------------------------------------------------------ L5
+
+def check_marking(facts, rep, fns=(r'sparse::pivot::RowWorker::init$', r'sparse::pivot::RowWorker::traverse$')):
+    """L5: the retry test of the commit protocol (update_diff) only sees columns whose status is Candidate or
+    Occupied. So every column a row worker visits must get a status: on every path of an iteration of the
+    column loops of init / traverse, set_candidate(col) or set_occupied(col) is called with the loop's column."""
+    from symex import SymEx, show, strip
+    for rx in fns:
+        bs = facts.find(rx)
+        if len(bs) != 1:
+            rep.indet('E5.L5: /%s/ not found exactly once' % rx)
+            continue
+        b = bs[0]
+        rep.saw(b)
+        n_iter = 0
+        bad = None
+        for p in SymEx(b, havoc_loops=True, max_paths=20000).run():
+            evs = p.events
+            # the column item of the innermost `for &j in str.cols_in(..)` loop taken on this path
+            item = None
+            idx = None
+            for i, e in enumerate(evs):
+                if e.kind == 'branch' and e.term[0] == 'discr' and e.term[1][0] == 'call' and e.term[1][1].endswith('Iterator::next') and e.value == 1:
+                    it = e.term[1]
+                    # only loops over cols_in(..)
+                    src = show(it)
+                    item, idx = ('field', it, 'Some.0'), i
+            if item is None:
+                continue
+            # is the iterator really the row's column list? (the loop header calls MatrixStr::cols_in)
+            if not any(e.kind == 'call' and e.name.endswith('MatrixStr::cols_in') for e in evs) and not any(
+                    c.name.endswith('MatrixStr::cols_in') for c in b.calls() if c.name):
+                continue
+            n_iter += 1
+            marked = False
+            for e in evs[idx:]:
+                if e.kind == 'call' and e.name.split('::')[-1] in ('set_candidate', 'set_occupied') and len(e.args) == 2:
+                    a = e.args[1]
+                    while a[0] in ('ref', 'deref'):
+                        a = a[1]
+                    if a == item:
+                        marked = True
+            if not marked and p.end in ('backedge', 'return', 'cut'):
+                conds = [(show(e.term)[:60], e.value) for e in evs[idx:] if e.kind == 'branch'][:4]
+                bad = bad or conds
+        inst = '%s|every visited column gets a status' % b.defp
+        if n_iter == 0:
+            rep.indet('E5.L5: no column loop recognised in %s' % b.defp)
+        elif bad is not None:
+            rep.violation('E5.L5-complete-marking', inst,
+                          '%s: on the path %s a column of the visited row keeps status None; update_diff ignores None columns, so a pivot committed '
+                          'concurrently on that column does not force a retry and two workers can commit mutually cyclic pivots' % (b.defp, bad),
+                          where=b.where())
+        else:
+            rep.ok('E5.L5-complete-marking', inst, '%d iteration path(s), each calls set_candidate / set_occupied on the column' % n_iter)
